@@ -145,6 +145,26 @@ static J read_attr(Ctx& c, CK_SESSION_HANDLE hs, CK_OBJECT_HANDLE ho, CK_ATTRIBU
     CALL(c.P->fl->C_GetAttributeValue(hs, ho, &at, 1));
     if (rv != CKR_OK) { J e = J::obj(); e.set("rv", (long)rv); if (at.ulValueLen != CK_UNAVAILABLE_INFORMATION) e.set("len", (long)at.ulValueLen); return e; }
     if (at.ulValueLen == CK_UNAVAILABLE_INFORMATION) { J e = J::obj(); e.set("rv", 0); e.set("len", -1); return e; }
+    if (type == CKA_WRAP_TEMPLATE || type == CKA_UNWRAP_TEMPLATE || type == CKA_DERIVE_TEMPLATE) {
+        // nested template: array of CK_ATTRIBUTE; first types+sizes (all pValue NULL), then the values
+        size_t n = at.ulValueLen / sizeof(CK_ATTRIBUTE);
+        J e = J::obj(); e.set("n", (long)n);
+        if (n == 0) { e.set("t", J::arr()); return e; }
+        Buf arr; arr.alloc(n * sizeof(CK_ATTRIBUTE)); memset(arr.p, 0, n * sizeof(CK_ATTRIBUTE));
+        CK_ATTRIBUTE_PTR inner = (CK_ATTRIBUTE_PTR)arr.p;
+        at.pValue = inner; at.ulValueLen = n * sizeof(CK_ATTRIBUTE);
+        CALL(c.P->fl->C_GetAttributeValue(hs, ho, &at, 1));
+        if (rv != CKR_OK) { e.set("rv", (long)rv); e.set("phase", 2); return e; }
+        std::vector<std::unique_ptr<Buf>> bufs;
+        for (size_t k = 0; k < n; k++) { bufs.emplace_back(new Buf); size_t l = inner[k].ulValueLen == CK_UNAVAILABLE_INFORMATION ? 0 : inner[k].ulValueLen; if (l > (1u << 20)) l = 0; bufs.back()->alloc(l); inner[k].pValue = bufs.back()->p; inner[k].ulValueLen = l; }
+        at.pValue = inner; at.ulValueLen = n * sizeof(CK_ATTRIBUTE);
+        CALL(c.P->fl->C_GetAttributeValue(hs, ho, &at, 1));
+        if (rv != CKR_OK) { e.set("rv", (long)rv); e.set("phase", 3); return e; }
+        J t = J::arr();
+        for (size_t k = 0; k < n; k++) { J x = J::arr(); x.push((long)inner[k].type); size_t l = inner[k].ulValueLen == CK_UNAVAILABLE_INFORMATION ? 0 : std::min<size_t>(inner[k].ulValueLen, bufs[k]->cap); x.push(tohex(bufs[k]->p, l)); t.push(x); }
+        e.set("t", t);
+        return e;
+    }
     Buf b; b.alloc(at.ulValueLen); at.pValue = b.p;
     CK_ULONG qlen = at.ulValueLen;
     CALL(c.P->fl->C_GetAttributeValue(hs, ho, &at, 1));
@@ -380,7 +400,8 @@ static J exec_call(Ctx& c, const J& op) {
     auto finish_rng = [&]() {
         if (!wantrng) return;
         J a = J::arr(); size_t mn = op["rng"]["min"].num(8), mx = op["rng"]["max"].num(1 << 20);
-        for (auto& d : rngcap) if (d.size() >= mn && d.size() <= mx) { a.push(tohex(d)); if (op["rng"]["disk"].boolean()) mon_register_disk_secret(d, op["rng"]["label"].str("rng")); }
+        bool first = op["rng"]["first"].boolean(false);
+        for (auto& d : rngcap) if (d.size() >= mn && d.size() <= mx) { a.push(tohex(d)); if (op["rng"]["disk"].boolean()) mon_register_disk_secret(d, op["rng"]["label"].str("rng")); if (first) break; }
         out.set("rng", a);
     };
     auto created_files = [&]() { std::vector<std::string> v(g_created_log.begin() + created_mark, g_created_log.end()); return v; };
